@@ -2,7 +2,7 @@ import Mustache.Proofs.RefineRun
 /-!
 # Refinement, stage (e): `applyCommandPack` does not read `lockDepth` / `buffers`
 
-`setCtl w d b` replaces the two fields; every piece of `applyPack` commutes with it. This lets the flush be run on
+`setCtl w d b mk` replaces the two fields; every piece of `applyPack` commutes with it. This lets the flush be run on
 "ghost" states that still carry the not-yet-applied commands in `buffers` (so that `Inv` — whose id-table part names
 the reserved handles through the buffered create commands — holds after every pack).
 -/
@@ -12,32 +12,33 @@ open Mustache.Proofs.Rows
 
 variable (info : CompId → CompInfo)
 
-def setCtl (w : WM) (d : Nat) (b : List (List Cmd)) : WM := { w with lockDepth := d, buffers := b }
+def setCtl (w : WM) (d : Nat) (b : List (List Cmd)) (mk : List Handle) : WM :=
+  { w with lockDepth := d, buffers := b, marked := mk }
 
-variable (d : Nat) (b : List (List Cmd))
+variable (d : Nat) (b : List (List Cmd)) (mk : List Handle)
 
-theorem setCtl_setArch (w : WM) (i : Nat) (a : Arch) : (setCtl w d b).setArch i a = setCtl (w.setArch i a) d b := rfl
+theorem setCtl_setArch (w : WM) (i : Nat) (a : Arch) : (setCtl w d b mk).setArch i a = setCtl (w.setArch i a) d b mk := rfl
 
-theorem setCtl_arch (w : WM) (i : Nat) : (setCtl w d b).arch i = w.arch i := rfl
-theorem setCtl_locOf (w : WM) (h : Handle) : (setCtl w d b).locOf h = w.locOf h := rfl
-theorem setCtl_isValid (w : WM) (h : Handle) : (setCtl w d b).isValid h = w.isValid h := rfl
+theorem setCtl_arch (w : WM) (i : Nat) : (setCtl w d b mk).arch i = w.arch i := rfl
+theorem setCtl_locOf (w : WM) (h : Handle) : (setCtl w d b mk).locOf h = w.locOf h := rfl
+theorem setCtl_isValid (w : WM) (h : Handle) : (setCtl w d b mk).isValid h = w.isValid h := rfl
 
 theorem setCtl_setLoc (w : WM) (h : Handle) (a : Option Nat) (i : Nat) :
-    (setCtl w d b).setLoc h a i = setCtl (w.setLoc h a i) d b := by
+    (setCtl w d b mk).setLoc h a i = setCtl (w.setLoc h a i) d b mk := by
   unfold WM.setLoc
   split <;> rfl
 
-theorem setCtl_release (w : WM) (h : Handle) : (setCtl w d b).release h = setCtl (w.release h) d b := by
+theorem setCtl_release (w : WM) (h : Handle) : (setCtl w d b mk).release h = setCtl (w.release h) d b mk := by
   unfold WM.release
   by_cases hc : h.id < w.slots.length
-  · have : h.id < (setCtl w d b).slots.length := hc
+  · have : h.id < (setCtl w d b mk).slots.length := hc
     simp only [hc, this, if_true]; rfl
-  · have : ¬ h.id < (setCtl w d b).slots.length := hc
+  · have : ¬ h.id < (setCtl w d b mk).slots.length := hc
     simp only [hc, this, if_false]; rfl
 
 theorem setCtl_archRemove (w : WM) (ai idx : Nat) (sk : Mask) :
-    (setCtl w d b).archRemove info ai idx sk =
-      (setCtl (w.archRemove info ai idx sk).1 d b, (w.archRemove info ai idx sk).2) := by
+    (setCtl w d b mk).archRemove info ai idx sk =
+      (setCtl (w.archRemove info ai idx sk).1 d b mk, (w.archRemove info ai idx sk).2) := by
   unfold WM.archRemove
   simp only [setCtl_arch]
   cases (w.arch ai).rows[idx]? with
@@ -49,7 +50,7 @@ theorem setCtl_archRemove (w : WM) (ai idx : Nat) (sk : Mask) :
     · simp only [hl, if_false, setCtl_setArch, setCtl_setLoc]
 
 theorem setCtl_destroyNowU (w : WM) (h : Handle) :
-    (setCtl w d b).destroyNowU info h = (setCtl (w.destroyNowU info h).1 d b, (w.destroyNowU info h).2) := by
+    (setCtl w d b mk).destroyNowU info h = (setCtl (w.destroyNowU info h).1 d b mk, (w.destroyNowU info h).2) := by
   unfold WM.destroyNowU
   simp only [setCtl_isValid, setCtl_locOf]
   by_cases hv : (!w.isValid h) = true
@@ -60,36 +61,36 @@ theorem setCtl_destroyNowU (w : WM) (h : Handle) :
     | some ai => simp only [setCtl_archRemove, setCtl_release, Bool.false_eq_true, if_false]
 
 theorem setCtl_getArch (w : WM) (m : Mask) (sh : Shared) :
-    (setCtl w d b).getArch m sh = (setCtl (w.getArch m sh).1 d b, (w.getArch m sh).2) := by
+    (setCtl w d b mk).getArch m sh = (setCtl (w.getArch m sh).1 d b mk, (w.getArch m sh).2) := by
   unfold WM.getArch
-  have hf : (setCtl w d b).findArch (Mask.union m (extraComponents (setCtl w d b).deps m)) sh =
+  have hf : (setCtl w d b mk).findArch (Mask.union m (extraComponents (setCtl w d b mk).deps m)) sh =
       w.findArch (Mask.union m (extraComponents w.deps m)) sh := rfl
   simp only [hf]
   cases w.findArch (Mask.union m (extraComponents w.deps m)) sh <;> rfl
 
 theorem setCtl_archInsert (w : WM) (ai : Nat) (e : Handle) (skip : Mask) :
-    (setCtl w d b).archInsert info ai e skip =
-      (setCtl (w.archInsert info ai e skip).1 d b, (w.archInsert info ai e skip).2) := by
+    (setCtl w d b mk).archInsert info ai e skip =
+      (setCtl (w.archInsert info ai e skip).1 d b mk, (w.archInsert info ai e skip).2) := by
   unfold WM.archInsert
   simp only [setCtl_arch, setCtl_setArch, setCtl_setLoc]
   rfl
 
 theorem setCtl_externalMove (w : WM) (t : Nat) (e : Handle) (p i : Nat) (skip : Mask) :
-    (setCtl w d b).externalMove info t e p i skip =
-      (w.externalMove info t e p i skip).map (fun r => (setCtl r.1 d b, r.2)) := by
+    (setCtl w d b mk).externalMove info t e p i skip =
+      (w.externalMove info t e p i skip).map (fun r => (setCtl r.1 d b mk, r.2)) := by
   unfold WM.externalMove
   by_cases ht : t = p
   · simp only [ht, if_true, Option.map_none]
   · simp only [ht, if_false, setCtl_arch, setCtl_setArch, setCtl_archRemove, setCtl_setLoc, Option.map_some]
 
 theorem setCtl_packSetVal (ti idx : Nat) (w : WM) (c : CompId) (v : Val) :
-    packSetVal ti idx (setCtl w d b) c v = setCtl (packSetVal ti idx w c v) d b := by
+    packSetVal ti idx (setCtl w d b mk) c v = setCtl (packSetVal ti idx w c v) d b mk := by
   unfold packSetVal
   simp only [setCtl_arch]
   cases (w.arch ti).mask.indexOf? c <;> rfl
 
 theorem setCtl_packStart (w : WM) (first : Cmd) :
-    packStart (setCtl w d b) first = (packStart w first).map (fun r => (setCtl r.1 d b, r.2.1, r.2.2)) := by
+    packStart (setCtl w d b mk) first = (packStart w first).map (fun r => (setCtl r.1 d b mk, r.2.1, r.2.2)) := by
   unfold packStart
   cases first with
   | create e m sh => rfl
@@ -118,10 +119,25 @@ theorem setCtl_packStart (w : WM) (first : Cmd) :
     · simp only [hv, if_false]
       cases (w.locOf (Cmd.assign e c v).entity).arch <;> rfl
 
+theorem release_marked' (w : WM) (h : Handle) : (w.release h).marked = w.marked := by
+  unfold WM.release; simp only; split <;> rfl
+
+theorem destroyNowU_marked' (w : WM) (h : Handle) : (w.destroyNowU info h).1.marked = w.marked := by
+  rw [destroyNowU_fst]
+  split
+  · cases (w.locOf h).arch with
+    | none => exact release_marked' w h
+    | some ai =>
+      simp only
+      rw [release_marked']
+      exact (archRemove_sameTable info w ai (w.locOf h).idx []).marked
+  · rfl
+
+/-- a pack command on a state with other `lockDepth` / `buffers` (the `marked` set is read by `destroy`, so it is kept) -/
 theorem setCtl_packStep (e : Handle) (isCreate : Bool) (w : WM) (p : PackSt) (cbs : List Cb) (c : Cmd) :
-    packStep info e isCreate (setCtl w d b, p, cbs) c =
-      (setCtl (packStep info e isCreate (w, p, cbs) c).1 d b, (packStep info e isCreate (w, p, cbs) c).2.1,
-        (packStep info e isCreate (w, p, cbs) c).2.2) := by
+    packStep info e isCreate (setCtl w d b w.marked, p, cbs) c =
+      (setCtl (packStep info e isCreate (w, p, cbs) c).1 d b (packStep info e isCreate (w, p, cbs) c).1.marked,
+        (packStep info e isCreate (w, p, cbs) c).2.1, (packStep info e isCreate (w, p, cbs) c).2.2) := by
   unfold packStep
   simp only
   by_cases hd : p.dead = true
@@ -132,12 +148,12 @@ theorem setCtl_packStep (e : Handle) (isCreate : Bool) (w : WM) (p : PackSt) (cb
     | destroyNow e' =>
       simp only
       cases isCreate with
-      | true => simp only [if_true, setCtl_release]
-      | false => simp only [Bool.false_eq_true, if_false, setCtl_destroyNowU]
+      | true => simp only [if_true, setCtl_release, release_marked']
+      | false => simp only [Bool.false_eq_true, if_false, setCtl_destroyNowU, destroyNowU_marked']
     | destroy h => rfl
     | remove e' c' =>
       simp only
-      have hdeps : (setCtl w d b).deps = w.deps := rfl
+      have hdeps : (setCtl w d b w.marked).deps = w.deps := rfl
       rw [hdeps]
       by_cases h1 : p.final.contains c' = true
       · simp only [h1, if_true]
@@ -147,15 +163,15 @@ theorem setCtl_packStep (e : Handle) (isCreate : Bool) (w : WM) (p : PackSt) (cb
       · simp only [h1, Bool.false_eq_true, if_false]
     | assign e' c' v =>
       simp only
-      have hdeps : (setCtl w d b).deps = w.deps := rfl
+      have hdeps : (setCtl w d b w.marked).deps = w.deps := rfl
       rw [hdeps]
       by_cases h1 : p.final.contains c' = true
       · simp only [h1, if_true]
       · simp only [h1, Bool.false_eq_true, if_false]
 
 theorem setCtl_packFold (e : Handle) (isCreate : Bool) (l : List Cmd) (w : WM) (p : PackSt) (cbs : List Cb) :
-    l.foldl (packStep info e isCreate) (setCtl w d b, p, cbs) =
-      (setCtl (l.foldl (packStep info e isCreate) (w, p, cbs)).1 d b,
+    l.foldl (packStep info e isCreate) (setCtl w d b w.marked, p, cbs) =
+      (setCtl (l.foldl (packStep info e isCreate) (w, p, cbs)).1 d b (l.foldl (packStep info e isCreate) (w, p, cbs)).1.marked,
         (l.foldl (packStep info e isCreate) (w, p, cbs)).2.1, (l.foldl (packStep info e isCreate) (w, p, cbs)).2.2) := by
   induction l generalizing w p cbs with
   | nil => rfl
@@ -164,9 +180,9 @@ theorem setCtl_packFold (e : Handle) (isCreate : Bool) (l : List Cmd) (w : WM) (
     rw [setCtl_packStep, ih]
 
 theorem fold_setCtl {α : Type} (F : WM × List Cb → α → WM × List Cb)
-    (hF : ∀ W cbs x, F (setCtl W d b, cbs) x = (setCtl (F (W, cbs) x).1 d b, (F (W, cbs) x).2)) (l : List α) (W : WM)
+    (hF : ∀ W cbs x, F (setCtl W d b mk, cbs) x = (setCtl (F (W, cbs) x).1 d b mk, (F (W, cbs) x).2)) (l : List α) (W : WM)
     (cbs : List Cb) :
-    l.foldl F (setCtl W d b, cbs) = (setCtl (l.foldl F (W, cbs)).1 d b, (l.foldl F (W, cbs)).2) := by
+    l.foldl F (setCtl W d b mk, cbs) = (setCtl (l.foldl F (W, cbs)).1 d b mk, (l.foldl F (W, cbs)).2) := by
   induction l generalizing W cbs with
   | nil => rfl
   | cons x rest ih =>
@@ -200,8 +216,8 @@ theorem packFinish_eq (e : Handle) (isCreate : Bool) (initial : Mask) (sh : Shar
   simp only
 
 theorem setCtl_packMoved (e : Handle) (isCreate : Bool) (initial : Mask) (sh : Shared) (w : WM) (p : PackSt) :
-    packMoved info e isCreate initial sh (setCtl w d b) p =
-      (setCtl (packMoved info e isCreate initial sh w p).1 d b, (packMoved info e isCreate initial sh w p).2) := by
+    packMoved info e isCreate initial sh (setCtl w d b mk) p =
+      (setCtl (packMoved info e isCreate initial sh w p).1 d b mk, (packMoved info e isCreate initial sh w p).2) := by
   unfold packMoved
   simp only [setCtl_getArch, setCtl_locOf]
   cases isCreate with
@@ -220,12 +236,12 @@ theorem setCtl_packMoved (e : Handle) (isCreate : Bool) (initial : Mask) (sh : S
 
 theorem setCtl_packLoops (e : Handle) (isCreate : Bool) (initial : Mask) (p : PackSt) (ti : Nat) (W1 : WM)
     (cbs1 cbs : List Cb) :
-    packLoops info e isCreate initial p ti (setCtl W1 d b) cbs1 cbs =
-      (setCtl (packLoops info e isCreate initial p ti W1 cbs1 cbs).1 d b,
+    packLoops info e isCreate initial p ti (setCtl W1 d b mk) cbs1 cbs =
+      (setCtl (packLoops info e isCreate initial p ti W1 cbs1 cbs).1 d b mk,
         (packLoops info e isCreate initial p ti W1 cbs1 cbs).2) := by
   unfold packLoops
   simp only [setCtl_arch, setCtl_locOf]
-  have h2 := fold_setCtl d b (packF2 info e (Mask.ofList (p.src.map (·.1))) ti (W1.locOf e).idx) (fun W c x => by
+  have h2 := fold_setCtl d b mk (packF2 info e (Mask.ofList (p.src.map (·.1))) ti (W1.locOf e).idx) (fun W c x => by
       unfold packF2
       simp only
       by_cases hs : (Mask.ofList (p.src.map (·.1))).contains x = true
@@ -234,7 +250,7 @@ theorem setCtl_packLoops (e : Handle) (isCreate : Bool) (initial : Mask) (p : Pa
     (packStale isCreate initial p (Mask.ofList (p.src.map (·.1))) (W1.arch ti).mask) W1 []
   rw [h2]
   simp only [setCtl_arch]
-  have h3 := fun tmask => fold_setCtl d b (packF3 info e tmask ti (W1.locOf e).idx) (fun W c x => by
+  have h3 := fun tmask => fold_setCtl d b mk (packF3 info e tmask ti (W1.locOf e).idx) (fun W c x => by
       unfold packF3
       by_cases hs : tmask.contains x.1 = true
       · simp only [hs, if_true, setCtl_packSetVal]
@@ -243,27 +259,40 @@ theorem setCtl_packLoops (e : Handle) (isCreate : Bool) (initial : Mask) (p : Pa
 
 theorem setCtl_packFinish (e : Handle) (isCreate : Bool) (initial : Mask) (sh : Shared) (w : WM) (p : PackSt)
     (cbs : List Cb) :
-    packFinish info e isCreate initial sh (setCtl w d b, p, cbs) =
-      (setCtl (packFinish info e isCreate initial sh (w, p, cbs)).1 d b,
+    packFinish info e isCreate initial sh (setCtl w d b mk, p, cbs) =
+      (setCtl (packFinish info e isCreate initial sh (w, p, cbs)).1 d b mk,
         (packFinish info e isCreate initial sh (w, p, cbs)).2) := by
   rw [packFinish_eq, packFinish_eq]
   by_cases hd : p.dead = true
   · simp only [hd, if_true]
   · simp only [hd, Bool.false_eq_true, if_false, setCtl_getArch, setCtl_packMoved, setCtl_packLoops]
 
+theorem packFinish_marked (e : Handle) (isCreate : Bool) (initial : Mask) (sh : Shared) (st : WM × PackSt × List Cb) :
+    (packFinish info e isCreate initial sh st).1.marked = st.1.marked :=
+  (packFinish_sameTable info e isCreate initial sh st).marked
+
 /-- `applyCommandPack` reads neither `lockDepth` nor `buffers` -/
 theorem setCtl_applyPack (w : WM) (pack : List Cmd) :
-    (setCtl w d b).applyPack info pack = (setCtl (w.applyPack info pack).1 d b, (w.applyPack info pack).2) := by
+    (setCtl w d b w.marked).applyPack info pack =
+      (setCtl (w.applyPack info pack).1 d b (w.applyPack info pack).1.marked, (w.applyPack info pack).2) := by
   cases pack with
   | nil => rfl
   | cons first rest =>
     rw [applyPack_eq, applyPack_eq, setCtl_packStart]
-    cases packStart w first with
+    cases hps : packStart w first with
     | none => rfl
     | some r =>
       obtain ⟨w1, initial0, sh⟩ := r
       simp only [Option.map_some]
-      have hdeps : (setCtl w1 d b).deps = w1.deps := rfl
-      rw [hdeps, setCtl_packFold, setCtl_packFinish]
+      have hdeps : (setCtl w1 d b w.marked).deps = w1.deps := rfl
+      have hm1 : w1.marked = w.marked := by
+        unfold packStart at hps
+        cases first with
+        | create e m sh' => simp only at hps; cases hps; rfl
+        | destroyNow e => simp only at hps; split at hps; cases hps; split at hps; cases hps; cases hps; rfl
+        | destroy e => simp only at hps; split at hps; cases hps; split at hps; cases hps; cases hps; rfl
+        | remove e c => simp only at hps; split at hps; cases hps; split at hps; cases hps; cases hps; rfl
+        | assign e c v => simp only at hps; split at hps; cases hps; split at hps; cases hps; cases hps; rfl
+      rw [hdeps, ← hm1, setCtl_packFold, setCtl_packFinish, packFinish_marked]
 
 end Mustache.Proofs.Refine
